@@ -383,3 +383,147 @@ def check_hkdf(ctx, P, rule="shape-eval"):
         for pre in ("hkdf-order", "hkdf-chunks", "hkdf-fresh", "hkdf-extract", "hkdf:"):
             ctx.subsume(pre, why)
     return ok
+
+
+# ------------------------------------------------------------------------------------------------ Argon2 H' over uninterpreted BLAKE2b
+def _b2_hooks(B, fam):
+    """BLAKE2b contexts as an uninterpreted hash family H^n (n = output length): new / update (by value and in place) /
+    finalize / finalize_at; a context value is a token carrying (outlen, transcript)"""
+    def tok(x):
+        while isinstance(x, tuple) and x and x[0] == "lref":
+            x = x[1][x[2]]
+        if isinstance(x, dict) and "_b2" in x:
+            return x
+        raise Bad("a BLAKE2b context method is called on something else")
+
+    def Hn(n, tr):
+        key = (n, tuple(tr))
+        if key not in fam:
+            k = len(fam)
+            fam[key] = [B.inp("B%d[%d]" % (k, i), 8) for i in range(n)]
+        return fam[key]
+
+    def h_new512(m_, f_, c_, a_):
+        return {"_b2": (64, ())}
+
+    def h_newdyn(m_, f_, c_, a_):
+        if not isinstance(a_[0], int) or not 1 <= a_[0] <= 64:
+            raise Bad("BLAKE2b output length %r" % (a_[0],))
+        return {"_b2": (a_[0], ())}
+
+    def h_update(m_, f_, c_, a_):
+        t = tok(a_[0])
+        cont, base, n = m_.seq(a_[1])
+        n_, tr = t["_b2"]
+        return {"_b2": (n_, tr + tuple(m_.scalar_bits(cont[base + i], 8) for i in range(n)))}
+
+    def h_update_mut(m_, f_, c_, a_):
+        t = tok(a_[0])
+        cont, base, n = m_.seq(a_[1])
+        n_, tr = t["_b2"]
+        t["_b2"] = (n_, tr + tuple(m_.scalar_bits(cont[base + i], 8) for i in range(n)))
+        return None
+
+    def h_finalize(m_, f_, c_, a_):
+        n_, tr = tok(a_[0])["_b2"]
+        hv = Hn(n_, tr)
+        return {i: hv[i] for i in range(n_)}
+
+    def h_finalize_at(m_, f_, c_, a_):
+        n_, tr = tok(a_[0])["_b2"]
+        cont, base, n = m_.seq(a_[1])
+        if n != n_:
+            raise Bad("finalize_at into %d bytes with output length %d" % (n, n_))
+        hv = Hn(n_, tr)
+        for i in range(n_):
+            cont[base + i] = hv[i]
+        return None
+    rx = lambda s_: re.compile(s_)
+    return Hn, [(rx(r"hashing::blake2b::Context::<BITS>::new$"), h_new512), (rx(r"hashing::blake2b::ContextDyn::new$"), h_newdyn),
+                (rx(r"hashing::blake2b::(Context::<BITS>|ContextDyn)::update$"), h_update), (rx(r"hashing::blake2b::(Context::<BITS>|ContextDyn)::update_mut$"), h_update_mut),
+                (rx(r"hashing::blake2b::(Context::<BITS>|ContextDyn)::finalize$"), h_finalize), (rx(r"hashing::blake2b::(Context::<BITS>|ContextDyn)::finalize_at$"), h_finalize_at)]
+
+
+def spec_hprime(B, Hn, T, inp):
+    le = [B.const((T >> s) & 0xff, 8) for s in (0, 8, 16, 24)]
+    if T <= 64:
+        return list(Hn(T, le + list(inp)))
+    r = (T + 31) // 32 - 2
+    v = Hn(64, le + list(inp))
+    out = list(v[:32])
+    for _ in range(2, r + 1):
+        v = Hn(64, list(v))
+        out += list(v[:32])
+    out += list(Hn(T - 32 * r, list(v)))
+    return out
+
+
+def check_hprime(ctx, P, rule="shape-eval"):
+    """Argon2's variable-length hash H' (RFC 9106 3.3) with BLAKE2b as an uninterpreted hash family: hprime for every tag
+    length 1..200 and 1024, hprime_block_init (the 1024-byte specialisation over H0 || LE32(col) || LE32(lane))"""
+    M_ = "kdf::argon2::"
+    hp = P.fn_opt(M_ + "hprime")
+    bi = P.fn_opt(M_ + "hprime_block_init")
+    if hp is None or bi is None:
+        ctx.lost(rule, "hprime", "hprime / hprime_block_init not found")
+        return False
+    bad = []
+    n = 0
+    lens = list(range(1, 201)) + [256, 1024]
+    for T in lens:
+        B = simd.TermBank()
+        fam = {}
+        Hn, hooks = _b2_hooks(B, fam)
+        inp = [B.inp("in[%d]" % i, 8) for i in range(3)]
+        out = {i: B.inp("out0[%d]" % i, 8) for i in range(T)}
+        M = simd.Machine(P, B, 64, {}, maxsteps=2000000)
+        M.generics = {"BITS": 512}
+        M.hooks = hooks
+        try:
+            M.call_fn(hp, [("aslice", out, 0, T), ("aslice", {i: inp[i] for i in range(3)}, 0, 3)])
+        except Bad as e:
+            bad.append((T, str(e)))
+            continue
+        except (simd.Unsupported, KeyError, IndexError, TypeError, AttributeError, ValueError) as e:
+            bad.append((T, "not evaluable: %s: %s" % (type(e).__name__, str(e)[:100])))
+            break
+        n += 1
+        want = spec_hprime(B, Hn, T, inp)
+        got = [M.scalar_bits(out[i], 8) for i in range(T)]
+        if got != want:
+            k = [i for i in range(T) if got[i] != want[i]][0]
+            bad.append((T, "tag byte %d differs from H'(T) of RFC 9106" % k))
+            if len(bad) > 3:
+                break
+    ok1 = not bad and n == len(lens)
+    ctx.check(ok1, rule, "argon2::hprime", "tag lengths 1..200, 256, 1024 with BLAKE2b uninterpreted: H'^T(X) = V1[..32] || ... || V_r[..32] || V_(r+1), V1 = H^64(LE32(T) || X), V_i = H^64(V_(i-1)), the last of the remaining length",
+              "hprime is not RFC 9106's H': (tag length, what) %s" % bad[:3], where=hp.where(), key="%s:argon2::hprime" % rule)
+    # block init
+    B = simd.TermBank()
+    fam = {}
+    Hn, hooks = _b2_hooks(B, fam)
+    h0 = [B.inp("h0[%d]" % i, 8) for i in range(64)]
+    col, lane = B.inp("col", 32), B.inp("lane", 32)
+    out = {i: B.inp("out0[%d]" % i, 8) for i in range(1024)}
+    box = Box(out)
+    M = simd.Machine(P, B, 64, {}, maxsteps=2000000)
+    M.generics = {"BITS": 512}
+    M.hooks = hooks
+    ok2 = False
+    why = ""
+    try:
+        M.call_fn(bi, [box.ref(), Box({i: h0[i] for i in range(64)}).ref(), col, lane])
+        x = h0 + simd.lanes(col, 8) + simd.lanes(lane, 8)
+        want = spec_hprime(B, Hn, 1024, x)
+        got = [M.scalar_bits(box.v[i], 8) for i in range(1024)]
+        ok2 = got == want
+        if not ok2:
+            why = "block byte %d differs" % [i for i in range(1024) if got[i] != want[i]][0]
+    except Bad as e:
+        why = str(e)
+    except (simd.Unsupported, KeyError, IndexError, TypeError, AttributeError, ValueError) as e:
+        why = "not evaluable: %s: %s" % (type(e).__name__, str(e)[:100])
+    ctx.check(ok2, rule, "argon2::hprime_block_init", "H'^1024(H0 || LE32(col) || LE32(lane)) with BLAKE2b uninterpreted", "hprime_block_init is not H'^1024 over H0 || LE32(col) || LE32(lane): %s" % why, where=bi.where(), key="%s:argon2::hprime_block_init" % rule)
+    if ok1 and ok2:
+        ctx.subsume("hprime", "hprime / hprime_block_init are decided against RFC 9106 with BLAKE2b uninterpreted (shape-eval)")
+    return ok1 and ok2
